@@ -30,6 +30,8 @@ SHAPE = (2, 3)
 FNS = {"exp": (jnp.exp, np.exp), "affine": (lambda v: 2.0 * v + 1.0, lambda v: 2.0 * v + 1.0), "tanh": (jnp.tanh, np.tanh),
        "sumsq": (lambda v: v * jnp.sum(v**2, -1, keepdims=True), lambda v: v * np.sum(v**2, -1, keepdims=True))}
 MASK = np.asarray([[True, False, True], [False, False, True]])
+PERM = np.asarray([2, 0, 1])
+PERMFLAT = np.asarray([[4, 3, 2], [0, 1, 5]])  # a permutation of the flat indices of a (2,3) array
 
 
 def np_softplus(v):
@@ -45,8 +47,13 @@ def build_expr(e, a):
         return a * e[1] + e[2]
     if k == "lambda":
         return W.Lambda(FNS[e[1]][0], build_expr(e[2], a))
+    if k == "lambda_mask":  # a wrapper that directly holds a NON-floating-point array (documented: args may be any arrays)
+        return W.Lambda(lambda v, m: jnp.where(m, v, -1.0), build_expr(e[1], a), m=jnp.asarray(MASK))
+    if k == "lambda_take":
+        return W.Lambda(lambda v, idx: jnp.take(v, idx, axis=-1), build_expr(e[1], a), idx=jnp.asarray(PERM))
     if k == "reparam":
-        bij = {"softplus": B.SoftPlus(), "exp": B.Exp(), "affine": B.Affine(0.5, 2.0)}[e[1]]
+        bij = {"softplus": B.SoftPlus(), "exp": B.Exp(), "affine": B.Affine(0.5, 2.0),
+               "permute": B.Permute(jnp.asarray(PERMFLAT))}[e[1]]
         if e[2]:  # invert_on_init: the argument is the (plain) constrained value, positive
             return W.BijectionReparam(jnp.abs(a * e[3][1] + e[3][2]) + 0.1, bij)
         return W.BijectionReparam(build_expr(e[3], a), bij, invert_on_init=False)
@@ -66,8 +73,12 @@ def eval_expr(e, a):
         return a * e[1] + e[2]
     if k == "lambda":
         return FNS[e[1]][1](eval_expr(e[2], a))
+    if k == "lambda_mask":
+        return np.where(MASK, eval_expr(e[1], a), -1.0)
+    if k == "lambda_take":
+        return np.take(eval_expr(e[1], a), PERM, axis=-1)
     if k == "reparam":
-        f = {"softplus": np_softplus, "exp": np.exp, "affine": lambda v: 2.0 * v + 0.5}[e[1]]
+        f = {"softplus": np_softplus, "exp": np.exp, "affine": lambda v: 2.0 * v + 0.5, "permute": lambda v: np.reshape(v, -1)[PERMFLAT]}[e[1]]
         if e[2]:
             return np.abs(a * e[3][1] + e[3][2]) + 0.1  # transform(inverse(value)) == value
         return f(eval_expr(e[3], a))
@@ -90,7 +101,9 @@ def exprs(depth):
     return st.one_of(
         leaf,
         st.tuples(st.just("lambda"), st.sampled_from(sorted(FNS)), sub),
-        st.tuples(st.just("reparam"), st.sampled_from(["softplus", "exp", "affine"]), st.just(False), sub),
+        st.tuples(st.just("reparam"), st.sampled_from(["softplus", "exp", "affine", "permute"]), st.just(False), sub),
+        st.tuples(st.just("lambda_mask"), sub),
+        st.tuples(st.just("lambda_take"), sub),
         st.tuples(st.just("reparam"), st.sampled_from(["softplus", "exp"]), st.just(True), leaf),
         st.tuples(st.just("where"), sub, sub),
         st.tuples(st.just("wn"), sub),
